@@ -130,7 +130,10 @@ def cmd_check(args):
         nviol = 0
         for kind, r in viol:
             if kind == "K":
-                path, reproduced, how = replay.replay_kani(r, prepared.get(r.h.group), work, log)
+                if os.environ.get("VERIF_NO_REPLAY"):
+                    path, reproduced, how = "(replay skipped: VERIF_NO_REPLAY)", None, "skipped"
+                else:
+                    path, reproduced, how = replay.replay_kani(r, prepared.get(r.h.group), work, log)
                 if reproduced is False:
                     inconcl.append((r.h.name, "counterexample did not reproduce natively (%s)" % how))
                     continue
